@@ -85,6 +85,8 @@ type Config struct {
 	// path UNDECIDED.
 	AllowFork func(name string) bool
 	MaxPaths  int
+	// OnFieldAddr is called for every field address computation (struct type, field name).
+	OnFieldAddr func(in *Interp, structT types.Type, field string)
 }
 
 type undecided struct{ why string }
@@ -1155,6 +1157,11 @@ func (in *Interp) exec(fr *frame, ins ssa.Instruction) {
 	case *ssa.FieldAddr:
 		p := in.get(fr, x.X)
 		elem := x.Type().(*types.Pointer).Elem()
+		if in.cfg.OnFieldAddr != nil {
+			if pt, ok := x.X.Type().Underlying().(*types.Pointer); ok {
+				in.cfg.OnFieldAddr(in, pt.Elem(), fieldName(x.X.Type(), x.Field))
+			}
+		}
 		switch pp := p.(type) {
 		case *Ptr:
 			if pp.Obj == nil {
